@@ -687,6 +687,11 @@ __strfd_card(
 				buf, bsz, d->d,
 				3 - (s.pad == DT_SPPAD_OMIT) << 1U, padchar(s));
 			break;
+		case DT_YMCW:
+			res = ui999topstr(
+				buf, bsz, dt_conv_to_yd(that).d,
+				3 - (s.pad == DT_SPPAD_OMIT) << 1U, padchar(s));
+			break;
 		case DT_LDN:
 			res = snprintf(buf, bsz, "%u", that.ldn);
 			break;
